@@ -69,6 +69,7 @@ C0 == [sock |-> "Off", enc |-> FALSE, wrap |-> FALSE, lst |-> "Core", lq |-> "No
        bindAvail |-> FALSE, smAvail |-> FALSE, smEnabled |-> FALSE, smResumed |-> FALSE,
        canResume |-> FALSE, redirect |-> FALSE,
        mech |-> "none", step |-> 0,
+       rqB |-> FALSE, rqS |-> FALSE, rqR |-> FALSE,   \* SASL 2 inline requests: bind2, bind2+sm enable, sm resume
        ackOn |-> FALSE,        \* StreamAckManager::m_enabled
        q |-> <<>>,             \* StreamAckManager: stanzas sent with acks on and not acknowledged (kinds)
        iq |-> "none",          \* one probe request: none | out | done
@@ -81,7 +82,8 @@ R0(cl) == [c |-> cl, out |-> <<>>, sig |-> <<>>]
 (* ---------------------------------------------------------------------- *)
 Emit(r, k)   == [r EXCEPT !.out = Append(@, [k |-> k, enc |-> r.c.enc])]
 Signal(r, s) == [r EXCEPT !.sig = Append(@, s)]
-SetLst(r, l) == [r EXCEPT !.c.lst = l, !.c.lq = "None", !.c.mech = "none", !.c.step = 0]
+SetLst(r, l) == [r EXCEPT !.c.lst = l, !.c.lq = "None", !.c.mech = "none", !.c.step = 0,
+                           !.c.rqB = FALSE, !.c.rqS = FALSE, !.c.rqR = FALSE]
 
 \* StreamAckManager::internalSend: a stanza is remembered while acks are on
 SendStanza(r, k) == Emit([r EXCEPT !.c.q = IF r.c.ackOn THEN Append(@, k) ELSE @], k)
@@ -141,6 +143,14 @@ StartSasl(r, ms, l, k) ==
     THEN ErrorClose(SetLst(r, l))
     ELSE Emit([SetLst(r, l) EXCEPT !.c.mech = Mech(ms), !.c.step = 1], k)
 
+\* startSasl2Auth: the <authenticate/> carries the inline requests the features allow:
+\* bind2 (with a stream-management <enable/> when bind2 lists it) and stream resumption
+StartSasl2(r, F) ==
+    LET r1 == StartSasl(r, F.s2, "Sasl2", "Sasl2Authenticate") IN
+    IF Mech(F.s2) = "none" THEN r1
+    ELSE [r1 EXCEPT !.c.rqB = F.b2 # "none", !.c.rqS = F.b2 = "sm",
+                    !.c.rqR = F.r2 /\ ~r.c.smEnabled /\ r.c.canResume]
+
 \* the part of handleStreamFeatures after authentication
 AfterAuthFeatures(r, F) ==
     LET r1 == [r EXCEPT !.c.bindAvail = F.bind, !.c.smAvail = F.sm] IN
@@ -153,7 +163,7 @@ AfterAuthFeatures(r, F) ==
 HandleFeatures(r, F) ==
     IF ~r.c.enc /\ cfg.tls = "Required" /\ F.tls = "absent" THEN LocalClose(r)
     ELSE IF ~r.c.enc /\ cfg.tls # "Disabled" /\ F.tls # "absent" THEN Emit(SetLst(r, "Starttls"), "Starttls")
-    ELSE IF F.s2 # "none" /\ cfg.sasl2 THEN StartSasl(r, F.s2, "Sasl2", "Sasl2Authenticate")
+    ELSE IF F.s2 # "none" /\ cfg.sasl2 THEN StartSasl2(r, F)
     ELSE IF F.mechs # "none" /\ cfg.sasl THEN StartSasl(r, F.mechs, "Sasl", "SaslAuth")
     ELSE IF F.legacy /\ cfg.legacy THEN StartLegacy(r)
     ELSE AfterAuthFeatures(r, F)
@@ -187,9 +197,16 @@ SaslElement(r, e) ==
       [] OTHER             -> ErrorClose(r)                           \* Rejected: the job stays
 
 Sasl2Element(r, e) ==
-    CASE e.k = "Success2"   -> IF r.c.mech = "SCRAM"
-                               THEN SetLst(ErrorClose(r), "Core")
-                               ELSE [SetLst(r, "Core") EXCEPT !.c.authed = TRUE]         \* features follow on the same stream
+    CASE e.k = "Success2"   ->
+            IF r.c.mech = "SCRAM" THEN SetLst(ErrorClose(r), "Core")
+            ELSE \* continuation of startSasl2Auth: inline resumption result, then the bind2 result,
+                 \* then the session opens at once if the stream was resumed; otherwise features follow
+                 LET r1 == [SetLst(r, "Core") EXCEPT !.c.authed = TRUE]
+                     r2 == IF e.res = "resumed"
+                           THEN EnableAcks([r1 EXCEPT !.c.smResumed = TRUE, !.c.smEnabled = TRUE]) ELSE r1
+                     r3 == IF e.bnd \in {"enabled", "enabledNoResume"}
+                           THEN EnableAcks([r2 EXCEPT !.c.smEnabled = TRUE, !.c.canResume = (e.bnd = "enabled")]) ELSE r2
+                 IN IF e.res = "resumed" THEN OpenSession(r3) ELSE r3
       [] e.k = "Challenge2" -> IF r.c.mech = "SCRAM" /\ r.c.step = 1 /\ e.good
                                THEN Emit([r EXCEPT !.c.step = 2], "Sasl2Response")
                                ELSE SetLst(ErrorClose(r), "Core")
@@ -253,7 +270,9 @@ HandleHeader(r0, versioned) ==
 (* ---------------------------------------------------------------------- *)
 Elements ==
     {[k |-> "Features", f |-> F] : F \in FeatureSets}
-    \cup {[k |-> x] : x \in {"Proceed", "TlsFailure", "Success", "Failure", "Success2", "Failure2", "Continue2",
+    \cup {[k |-> "Success2", res |-> rs, bnd |-> b] : rs \in {"none", "resumed", "failed"},
+                                                    b \in {"none", "plain", "enabled", "enabledNoResume", "smfailed"}}
+    \cup {[k |-> x] : x \in {"Proceed", "TlsFailure", "Success", "Failure", "Failure2", "Continue2",
                              "IqOther", "IqReply", "LegacyResult", "Resumed", "SmFailed",
                              "SeeOtherHost", "StreamError", "Whitespace"}}
     \cup {[k |-> x, good |-> g] : x \in {"Challenge", "Challenge2"}, g \in BOOLEAN}
@@ -269,7 +288,11 @@ LeaksIn(out) == \E i \in DOMAIN out : out[i].k \in Sensitive /\ ~out[i].enc
 Conforming(cl, ex, e) ==
     CASE cl.lst = "Starttls" -> e.k \in {"Proceed", "TlsFailure"}
       [] cl.lst = "Sasl"     -> e.k \in {"Challenge", "Success", "Failure"}
-      [] cl.lst = "Sasl2"    -> e.k \in {"Challenge2", "Success2", "Failure2", "Continue2"}
+      [] cl.lst = "Sasl2"    -> \/ e.k \in {"Challenge2", "Failure2", "Continue2"}
+                                \/ /\ e.k = "Success2"         \* inline results only for what was requested
+                                   /\ (e.res # "none" => cl.rqR)
+                                   /\ (e.bnd # "none" => cl.rqB /\ e.res # "resumed")
+                                   /\ (e.bnd \in {"enabled", "enabledNoResume", "smfailed"} => cl.rqS)
       [] cl.lst = "Legacy"   -> e.k \in {"AuthFields"}
       [] cl.lst = "Bind"     -> e.k = "BindResult"
       [] cl.lst = "SmResume" -> e.k \in {"Resumed", "SmFailed"}
@@ -285,7 +308,7 @@ NextExpect(r, ev) ==
     IF \E i \in DOMAIN r.out : r.out[i].k = "StreamOpen" THEN "Hdr"
     ELSE IF r.c.sock = "Off" THEN "None"
     ELSE IF ev.k = "Hdr" /\ expect = "Hdr" THEN "Features"
-    ELSE IF ev.k = "Success2" /\ c.lst = "Sasl2" THEN "Features"
+    ELSE IF ev.k = "Success2" /\ c.lst = "Sasl2" /\ ev.res # "resumed" THEN "Features"
     ELSE IF ev.k = "Features" THEN "None"
     ELSE expect
 
